@@ -4,6 +4,7 @@ import (
 	"fmt"
 	"go/ast"
 	"sort"
+	"strings"
 
 	"arkverif/checker/core"
 )
@@ -58,6 +59,46 @@ func c04r13(c *core.Ctx) {
 			return true
 		})
 	}
+	// truncate-then-append: a field that some function cuts back (x.F = x.F[:k]) and some function appends to
+	// (x.F = append(x.F, ...)) is overwritten in place by that append
+	truncated := map[string]bool{}
+	type app struct {
+		f    *core.Func
+		node ast.Node
+	}
+	appends := map[string][]app{}
+	for _, f := range m.AllFuncs() {
+		core.InspectNoLits(f.Body, func(x ast.Node) bool {
+			as, ok := x.(*ast.AssignStmt)
+			if !ok || len(as.Lhs) != len(as.Rhs) {
+				return true
+			}
+			for i, l := range as.Lhs {
+				k := fieldOfBase(l)
+				if k == "" {
+					continue
+				}
+				r := ast.Unparen(m.Inline(m.StripConv(as.Rhs[i])))
+				switch y := r.(type) {
+				case *ast.SliceExpr:
+					if fieldOfBase(y.X) == k && y.High != nil {
+						truncated[k] = true
+					}
+				case *ast.CallExpr:
+					if m.IsBuiltin(y, "append") && len(y.Args) >= 2 && fieldOfBase(y.Args[0]) == k {
+						appends[k] = append(appends[k], app{f, y})
+					}
+				}
+			}
+			return true
+		})
+	}
+	for k := range truncated {
+		for _, a := range appends[k] {
+			writes = append(writes, write{a.f, a.node, k, "appends to it after it may have been cut back (the append then overwrites the old elements)"})
+		}
+	}
+	sort.SliceStable(writes, func(i, j int) bool { return writes[i].node.Pos() < writes[j].node.Pos() })
 	shared := map[string]string{} // key -> witness ("" = not shared)
 	decided := map[string]bool{}
 	sharedWitness := func(key string) string {
@@ -67,6 +108,12 @@ func c04r13(c *core.Ctx) {
 		decided[key] = true
 		sc := &scratchCtx{c: c, m: m, returns: map[*core.Func]map[int]bool{}, busy: map[*core.Func]bool{}, viol: map[string]scratchViol{},
 			retainMemo: map[*core.Func]map[int][]map[int]bool{}, retainBusy: map[string]bool{}, sameFieldSinks: true,
+			// a query holds views of the table lists for the time of its iteration only, during which the world lock
+			// rejects every operation that changes them (C07/R1): not a second owner
+			skipSink: func(key string) bool {
+				o := ownerOf(key)
+				return strings.HasPrefix(o, "Query") || o == "UnsafeQuery" || o == "cursor"
+			},
 			src: func(e ast.Expr) bool { return fieldKeyOf(m, e) == key }}
 		for _, f := range m.AllFuncs() {
 			reads := false
